@@ -250,18 +250,21 @@ def run(ctx):
                                          "SPECIFICATION ImplSpec\nINVARIANT ImplOK\nCHECK_DEADLOCK FALSE\n", iconsts(4, **kw)),
                             2, 900, expect_violation="ImplOK", coverage=False)
     ctx.notes["g2_histories"] = len(hists)
-    if not ctx.thorough and len(hists) > 300:
-        hists = rng.sample(hists, 300)
+    cap = 4000 if ctx.thorough else 180
+    if len(hists) > cap:
+        hists = rng.sample(hists, cap)     # seeded sample of the view-distinct histories
     hists = [h + [{"ev": "dump"}] for h in hists]
     mps = multipart_scripts(ctx, rng)
-    rnd = random_scripts(ctx, rng, 400 if ctx.thorough else 50, 12)
+    rnd = random_scripts(ctx, rng, 400 if ctx.thorough else 40, 12)
     ctx.notes["multipart_scripts"] = len(mps)
     ctx.notes["random_scripts"] = len(rnd)
     write_script(script, hists + mps + rnd)
     # the same multipart and random scripts against a filer that keeps small files inline
     write_script(iscript, mps + rnd[: len(rnd) // 2])
-    trace = ctx.drive(binp, ["--script", script], timeout=2400)
-    itrace = ctx.drive(binp, ["--script", iscript, "--mode", "inline"], name="inline_trace", timeout=2400)
+    with ThreadPoolExecutor(max_workers=2) as pool:     # two driver processes, each with its own mini-cluster
+        ft = pool.submit(ctx.drive, binp, ["--script", script], timeout=2400)
+        fi = pool.submit(ctx.drive, binp, ["--script", iscript, "--mode", "inline"], name="inline_trace", timeout=2400)
+        trace, itrace = ft.result(), fi.result()
 
     def mutate(evs):
         # a read recorded with the last two segments of a completed upload swapped
@@ -287,7 +290,7 @@ def run(ctx):
     ctx.judge("S3ObjectTrace", trace, "trace_base.cfg", consts(), nontrivial=nt,
               mutate=mutate if ctx.seed % 2 else mutate_del, label="chk")
     ctx.judge("S3ObjectTrace", itrace, "trace_base.cfg", consts(inline=INLINE), nontrivial=nt,
-              mutate=mutate_del if ctx.seed % 2 else mutate, label="inl")
+              mutate=(mutate_del if ctx.seed % 2 else mutate) if ctx.thorough else None, label="inl")
     ctx.rule = ("executions = (1) TLC-generated histories of the layer-B model (one shortest per distinct (tree with folders, uploads, last request)) of put / "
                 "streaming put / copy / copy of a missing key / delete / batch delete / get with ranges at the joins / "
                 "initiate / upload part / complete / abort over the overlapping names a, a/b, ab in two buckets; "
